@@ -708,7 +708,7 @@ theorem allocMulti_total {F : Nat} {s : State} {out : List Nat} (n : Nat) (hI : 
         exact index_lt hj hiF hb1 hb2
       rw [hbr]
       simp only [List.headD_cons, List.tail_cons]
-      have hm : ∃ s1 : State, (if i = F - ordOf (n * 4096) ∧ 0 < i then
+      have hm : ∃ s1 : State, (if 0 < i then
             flipMerge { s with free := setLvl s.free i rest } (indexOfBlock s.base s.size blk (i - 1))
           else Except.ok { s with free := setLvl s.free i rest }) = .ok s1 ∧
           s1.base = s.base ∧ s1.size = s.size ∧ s1.nbits = s.nbits := by
